@@ -38,6 +38,7 @@ TvInit == [absq |-> <<{}>>,        \* memo of the abstract index: absq[k+1] = Ab
            run |-> 0,             \* number of the run (Reset events)
            pending |-> {},        \* files whose Persist is in flight: <<kind, id>>
            mem |-> FALSE,         \* in-memory directory (no durability clauses)
+           noasync |-> FALSE,     \* the writer runs without an error callback (the default of the public configuration)
            free |-> FALSE,        \* free-running execution: events of different goroutines that are not ordered by a
                                   \* lock (handle closes vs. removals) may be logged in either order, so the clauses
                                   \* that relate them are not evaluated
@@ -147,12 +148,13 @@ TReset ==
   /\ applied' = <<>> /\ epochLen' = (0 :> 0) /\ acked' = {} /\ cbAcked' = {} /\ batchOf' = <<>>
   /\ retBefore' = <<>> /\ errd' = {}
   /\ cnt' = [crashes |-> 0, merges |-> 0, faults |-> 0, ropens |-> 0, asyncErrs |-> 0, snapsDone |-> 0]
-  /\ tv' = [TvInit EXCEPT !.run = Ev.run, !.mem = Ev.mem, !.free = Ev.free]
+  /\ tv' = [TvInit EXCEPT !.run = Ev.run, !.mem = Ev.mem, !.free = Ev.free, !.noasync = (Has(Ev, "noasync") /\ Ev.noasync)]
   /\ viol' = viol
 
 TReset0 == \* Reset is the first line: Init already holds
   /\ l = 1 /\ N >= 1 /\ TraceLog[1].ev = "Reset" /\ l' = 2
-  /\ tv' = [TvInit EXCEPT !.run = TraceLog[1].run, !.mem = TraceLog[1].mem, !.free = TraceLog[1].free]
+  /\ tv' = [TvInit EXCEPT !.run = TraceLog[1].run, !.mem = TraceLog[1].mem, !.free = TraceLog[1].free,
+                         !.noasync = (Has(TraceLog[1], "noasync") /\ TraceLog[1].noasync)]
   /\ life' = [LifeInit EXCEPT !.up = FALSE, !.lock = FALSE]
   /\ UNCHANGED <<root, nextEpoch, nextSeg, nextUid, nextH, cl, pend, cbs, ps, mg, fsnp, fseg, pol, snaps, inst,
                  rd, applied, epochLen, acked, cbAcked, batchOf, retBefore, errd, cnt, viol>>
@@ -507,7 +509,7 @@ TCloseReturn ==
   /\ Judge((IF life.lock THEN {"C11_lock_not_released"} ELSE {})
            \cup (IF (\A r \in Readers : rd[r].st = "closed") /\ (\E h \in DOMAIN inst : inst[h].open)
                  THEN {"C11_handle_leaked"} ELSE {})
-           \cup (IF errd # {} /\ cnt.asyncErrs = 0 THEN {"C14_error_not_surfaced"} ELSE {})
+           \cup (IF errd # {} /\ cnt.asyncErrs = 0 /\ ~tv.noasync THEN {"C14_error_not_surfaced"} ELSE {})
            \* every batch that became durable had its persisted-callback invoked (callbacks of failed
            \* rounds are parked and must be delivered by the next successful round)
            \cup (IF ~tv.mem /\ \E u \in tv.cbwant : Durable(u) /\ u \notin cbAcked
